@@ -148,6 +148,7 @@ type Report struct {
 	Known       []Violation    `json:"known_replays"`        // replays of known findings that still fail
 	Notes       []string       `json:"notes,omitempty"`
 	distinct    map[string]struct{}
+	perSig      map[string]int
 }
 
 func NewReport(prop string) *Report {
@@ -176,9 +177,14 @@ func (r *Report) Sample(s interface{}) {
 	}
 }
 func (r *Report) Violate(sig, detail string, replay interface{}) {
-	if len(r.Violations) < 25 {
+	// keep at most 3 per signature so that a frequent (possibly known) class cannot crowd out a new one
+	if r.perSig == nil {
+		r.perSig = map[string]int{}
+	}
+	if r.perSig[sig] < 3 && len(r.Violations) < 90 {
 		r.Violations = append(r.Violations, Violation{sig, detail, replay})
 	}
+	r.perSig[sig]++
 	r.Dist["oracle_violations"]++
 }
 func (r *Report) KnownStillFails(sig, detail string, replay interface{}) {
